@@ -16,15 +16,21 @@ func main() {
 		fmt.Fprintln(os.Stderr, "usage: gosym check|run|replay|litmus ...")
 		os.Exit(2)
 	}
+	setupRepo()
+	rc := -1
 	switch os.Args[1] {
 	case "check":
-		os.Exit(cmdCheck(os.Args[2:]))
+		rc = cmdCheck(os.Args[2:])
 	case "run":
-		os.Exit(cmdRun(os.Args[2:]))
+		rc = cmdRun(os.Args[2:])
 	case "replay":
-		os.Exit(cmdReplay(os.Args[2:]))
+		rc = cmdReplay(os.Args[2:])
 	case "litmus":
-		os.Exit(cmdLitmus(os.Args[2:]))
+		rc = cmdLitmus(os.Args[2:])
+	}
+	cleanupRepo()
+	if rc >= 0 {
+		os.Exit(rc)
 	}
 	fmt.Fprintln(os.Stderr, "unknown command", os.Args[1])
 	os.Exit(2)
